@@ -8,17 +8,42 @@ import sys
 
 VERIF = os.path.dirname(os.path.dirname(os.path.abspath(__file__)))
 sys.path.insert(0, VERIF)
-from mc.common import Harness  # noqa: E402
+from mc.common import Harness, ShardResult, limit_worker_memory  # noqa: E402
+
+
+def replay_shard(case, mod):
+    """a shard during which the worker died or ran out of memory: run that shard again in a child process"""
+    import multiprocessing
+    ctx = multiprocessing.get_context("fork")
+
+    def body():
+        limit_worker_memory()
+        h = Harness()
+        try:
+            mod.run_shard(case["shard"], case.get("tier", "quick"), h, ShardResult(), set())
+        finally:
+            h.close()
+    p = ctx.Process(target=body)
+    p.start()
+    p.join()
+    return p.exitcode != 0, f"shard {case['shard']} ended with exit code {p.exitcode}"
 
 
 def main():
     case = json.load(open(sys.argv[1]))
     mod = importlib.import_module(f"checks.{case['property']}")
-    h = Harness()
-    try:
-        fails, msg = mod.replay(case, h)
-    finally:
-        h.close()
+    if case.get("family") == "worker" and case.get("clause") == "no-result":
+        fails, msg = replay_shard(case, mod)
+    elif case.get("family") == "uncaught":
+        print(f"NOT-REPLAYABLE property={case['property']} clause={case.get('clause')}: the recorded exception escaped the check's own "
+              f"handlers; rule and input are in the file under 'where'")
+        return 1
+    else:
+        h = Harness()
+        try:
+            fails, msg = mod.replay(case, h)
+        finally:
+            h.close()
     print(("STILL-FAILS " if fails else "HOLDS ") + f"property={case['property']} clause={case.get('clause')} {msg}")
     return 1 if fails else 0
 
